@@ -292,7 +292,7 @@ func e2eSend(name, url string, headers string, status int64) (d decoded, err err
 	k.Add("url", url)
 	k.Add("path", url[strings.Index(url, "/"):])
 	k.Add("query", "")
-	k.Add("headers", headers)
+	k.Add("headers", headers+"\r\n\r\n") // the proxy's dump format: every line CRLF-terminated, then the closing empty line
 	k.Add("body", []byte(""))
 	if name == "lunar-on-response" {
 		k.Add("status", status)
